@@ -284,8 +284,7 @@ gproof! { fn c11_arc_offset_roundtrip__zst() {
 // @h props=C01,C04,C11 fuc=Arc::with_raw_offset_arc,OffsetArc::clone,OffsetArc::drop,OffsetArc::strong_count
 gproof! { fn c04_arc_with_raw_offset_arc_callback() {
     let n = any_count();
-    kani::assume(n < isize::MAX as usize);
-    let a = mk(Tr8::new(), n);
+        let a = mk(Tr8::new(), n);
     let (b0, d0, id, c0) = (base(&a), data(&a), a.id, cw(&a));
     let keep: bool = kani::any();
     let seen = a.with_raw_offset_arc(|o| {
@@ -320,8 +319,7 @@ gproof! { fn c04_arc_borrow_arc() {
 // @h props=C04,C14 fuc=Arc::ptr_eq
 gproof! { fn c04_arc_ptr_eq_and_move() {
     let n = any_count();
-    kani::assume(n < isize::MAX as usize);
-    let a = mk(S9a8::any(), n);
+        let a = mk(S9a8::any(), n);
     let b = a.clone();
     let c = Arc::new(S9a8::any());
     assert!(Arc::ptr_eq(&a, &b) && !Arc::ptr_eq(&a, &c));
@@ -673,8 +671,7 @@ gproof! { fn c09_arc_unwrap_or_clone__tr8() {
 
 // @h props=C16 kind=panic site="abort" fuc=Arc::clone
 gpanic! { fn c16_arc_clone_overflow_aborts() {
-    let n: usize = kani::any();
-    kani::assume(n > isize::MAX as usize);
+    let n = vrt::overflow_count();
     let a = mk(S1::any(), n);
     let b = a.clone();
     core::mem::forget(a);
@@ -683,8 +680,7 @@ gpanic! { fn c16_arc_clone_overflow_aborts() {
 
 // @h props=C16 kind=panic site="abort" fuc=Arc::clone
 gpanic! { fn c16_arc_clone_overflow_aborts__slice() {
-    let n: usize = kani::any();
-    kani::assume(n > isize::MAX as usize);
+    let n = vrt::overflow_count();
     let a = mk_slice_u32();
     set_cnt(&a, n);
     let b = a.clone();
@@ -694,8 +690,7 @@ gpanic! { fn c16_arc_clone_overflow_aborts__slice() {
 
 // @h props=C16 kind=panic site="abort" fuc=Arc::clone
 gpanic! { fn c16_arc_clone_overflow_aborts__dyn() {
-    let n: usize = kani::any();
-    kani::assume(n > isize::MAX as usize);
+    let n = vrt::overflow_count();
     let a = mk_dyn(S1::any());
     set_cnt(&a, n);
     let b = a.clone();
@@ -709,7 +704,7 @@ gproof! { fn c16_arc_clone_below_limit_adds_one() {
     let a = mk(S1::any(), n);
     let b = a.clone();
     assert!(cnt(&a) == n + 1);
-    kani::cover!(n == isize::MAX as usize, "boundary isize::MAX");
+    kani::cover!(n == isize::MAX as usize - 1, "boundary isize::MAX - 1");
     kani::cover!(n == (1usize << 32), "2^32");
     core::mem::forget(a);
     core::mem::forget(b);
@@ -775,8 +770,7 @@ h_arc_cmp_delegates!(c14_arc_cmp_delegates, |a, b| a.cmp(b), O, vrt::ip_ord().un
 // @h props=C14 fuc=Arc::eq,Arc::ne,Arc::ptr_eq note="licence: two handles to the same allocation compare equal, the value need not be consulted"
 gproof! { fn c14_arc_same_allocation_licence() {
     let n = any_count();
-    kani::assume(n < isize::MAX as usize);
-    let a = mk(Ip(kani::any()), n);
+        let a = mk(Ip(kani::any()), n);
     let a2 = a.clone();
     vrt::ip_setup(data(&a), data(&a));
     // whether or not the value is consulted (it is equal to itself here), same allocation => equal
@@ -1201,8 +1195,7 @@ gproof! { #[kani::unwind(12)] fn c09_od_try_unwrap_orders() {
 #[kani::stub(alloc::alloc::dealloc, crate::vrt::ghost_dealloc)]
 #[kani::stub(alloc::alloc::dealloc_nonnull, crate::vrt::ghost_dealloc_nn)]
 fn c16_od_clone_overflow_single_rmw() {
-    let n: usize = kani::any();
-    kani::assume(n > isize::MAX as usize);
+    let n = vrt::overflow_count();
     let a = mk(S1::any(), n);
     tr::reset();
     unsafe { vrt::OD_N = n; }
@@ -1239,8 +1232,7 @@ gproof! { fn c11_handle_widths_and_niche() {
 // ------------------------------------------------------------------------------------------
 // @h props=C16 features=none kind=panic site="src/lib.rs.* in abort" fuc=Arc::clone,crate::abort note="no_std build: the refusal site is the panic inside crate::abort"
 gpanic! { fn c16_nostd_arc_clone_overflow_reaches_abort() {
-    let n: usize = kani::any();
-    kani::assume(n > isize::MAX as usize);
+    let n = vrt::overflow_count();
     let a = mk(S1::any(), n);
     let b = a.clone();
     core::mem::forget(a);
